@@ -180,14 +180,70 @@ def ridge(env, lp, d, m, N, A, max_chunks, add_after=False, alpha0=False, labels
         env.ob('twin.false', False)
 
 
+TOL = 1e-6
+
+
+def ridge_scaled(env, lp, d, m, N, A=2, twin=False):
+    """scale=True, single fit: per-arm standardised features (population mean / std; a feature whose std is <= 1e-6 keeps
+    scale 1), ridge regression on the standardised rows, queries standardised with the arm's own scaler"""
+    arms = list(LABELS['int'][:A])
+    dec, rew, ctx = gen_batch(env, 'h', arms, N, 'real', d=d, fixed_n=N, floatable=True)
+    dec = np.asarray(dec)
+    mab, hp = new_mab(env, arms, lp, scale=True)
+    h = hp['h']
+    lam = h['l2']
+    mab.fit(dec, rew, ctx)
+    q = env.reals('q', (m, d), floatable=True)
+    n0 = len(env.log)
+    out = mab.predict_expectations(q)
+    calls = env.log[n0:]
+    rows = out if isinstance(out, list) else [out]
+    env.ob('shape', len(rows) == m)
+    if len(rows) != m:
+        return
+    for a in arms:
+        idx = [i for i in range(N) if dec[i] == a]
+        model = Ridge(env, d, lam)
+        if idx:
+            n = len(idx)
+            mean = [sum((ctx[i][j] for i in idx), 0) / n for j in range(d)]
+            var = [sum(((ctx[i][j] - mean[j]) * (ctx[i][j] - mean[j]) for i in idx), 0) / n for j in range(d)]
+            scale = []
+            for j in range(d):
+                if env.decide(env.eq(var[j], 0)):
+                    scale.append(1)
+                else:
+                    sd = env.sqrt(var[j])
+                    scale.append(1 if env.decide(sd <= TOL) else sd)
+            for i in idx:
+                model.add([(ctx[i][j] - mean[j]) / scale[j] for j in range(d)], rew[i])
+            zq = [[(q[r][j] - mean[j]) / scale[j] for j in range(d)] for r in range(m)]
+        else:
+            zq = [[q[r][j] for j in range(d)] for r in range(m)]      # an arm without data has no fitted scaler
+        beta = model.beta()
+        for r in range(m):
+            if lp == 'linucb':
+                cold = not idx
+                want = dot(zq[r], beta) + h['alpha'] * env.sqrt(quad(zq[r], model.ainv()))
+                alt = env.eq(rows[r][a], dot(zq[r], beta) + h['alpha'] * env.sqrt(quad(zq[r], model.ainv(bugcompat=True)))) \
+                    if cold else None
+                env.ob('scaled.ucb.row%d[%s]%s' % (r, a, '.cold' if cold else ''), env.eq(rows[r][a], want),
+                       kf=KF_COV if cold else None, alt=alt)
+            elif lp == 'lingreedy0':
+                env.ob('scaled.exploit.row%d[%s]' % (r, a), env.eq(rows[r][a], dot(zq[r], beta)))
+    if twin:
+        env.ob('twin.false', False)
+
+
 BOUNDS = {
     'quick': dict(features='1-2', query_rows='1-2', rows='3', arms='2 (+1 added after fit)', chunks='<= 2',
-                  policies='LinGreedy (epsilon symbolic), LinUCB, LinTS; scale=False'),
+                  policies='LinGreedy (epsilon symbolic), LinUCB, LinTS with scale=False; LinGreedy(0) and LinUCB with scale=True (single '
+                           'fit, 1 feature)'),
     'thorough': dict(features='1-3', query_rows='1-3', rows='<= 4', arms='2-3 (+1 added and trained after fit)',
                      chunks='<= 3', policies='LinGreedy, LinUCB, LinTS; scale=False and scale=True (single fit)'),
 }
 OUTSIDE = ['l2_lambda = 0', 'rounding of the matrix inverse (linalg.inv is an uninterpreted function with the contract '
-           'A inv(A) = I)', 'scale=True together with partial_fit (excluded by the property)',
+           'A inv(A) = I)', 'scale=True together with partial_fit (excluded by the property)', 'scale=True for LinTS and for exploring LinGreedy',
            'the distribution of the multivariate normal draw itself: the obligation is about its parameters (mean beta, '
            'covariance alpha^2 A^-1, which implies convergence to x.beta as alpha -> 0) and how the draw is combined with '
            'the context; alpha = 0 itself is rejected by the facade and makes numpy\'s Cholesky sampler fail']
@@ -214,5 +270,10 @@ def scenarios(tier):
         if not q:
             out.append(Scenario('%s.A3.str' % lp, ridge, dict(lp=lp, d=2, m=1, N=3, A=3, max_chunks=3, labels='str'),
                                 weight=60))
+    for lp in ('lingreedy0', 'linucb'):
+        for d, m in ([(1, 1), (1, 2)] if q else [(1, 1), (1, 2), (2, 1), (2, 2)]):
+            N = 3
+            out.append(Scenario('%s.scaled.d%d.m%d' % (lp, d, m), ridge_scaled, dict(lp=lp, d=d, m=m, N=N), weight=60 * d * d,
+                                shards=2, max_paths=60000, bounds=dict(lp=lp, d=d, m=m, rows=N, scale=True)))
     out.append(Scenario('twin.linucb', ridge, dict(lp='linucb', d=1, m=1, N=2, A=2, max_chunks=2, twin=True), twin=True))
     return out
